@@ -17,8 +17,23 @@
      (b') an abandoned dial whose outcome has been scripted completes at the next run of the background tasks
           - model invariant MD and the run-queue fuel argument (pool/DialC14.v, pool/BgC14.v).
    The per-primitive lemmas below (all states, all inputs) are kept: they are the building blocks of the
-   argument and still hold. *)
+   argument and still hold.
+   TWO-PHASE DIAL (M-CKPHASE, directory coq/ckphase): M-POOL resolves a dial in ONE environment step, so no poll of
+   M-POOL finds "transport connected, handshake pending".  The component ckphase models one origin with the
+   transport and the handshake resolved separately (Checkout::poll polls the waiter BEFORE the connector on
+   every poll) and the theorems c14_ckphase_* below say, for ALL operation sequences and both
+   continue_after_preemption settings: the monitor mon_ckphase accepts every model trace; (a) a released
+   connection is offered to the longest-waiting request WHATEVER phase its own dial is in and serves it at its
+   next poll; (b) the abandoned dial runs on and completes into the pool (cont) / is dropped at once and can
+   not be reached by the environment any more (no cont); (c) every connection is in exactly one place, no
+   connection serves two requests, no request is served twice (on every trace the monitor accepts).
+   ckphase/Overlap.v: where both models apply (DialDone = transport;handshake with no poll in between) they
+   agree (400 histories by computation). *)
 From HD Require Import common.Base http.Model pool.Model pool.Spec pool.ProofsLite pool.ProofsLite2 pool.ProofsC14.
+From HD Require ckphase.Model ckphase.Spec ckphase.Proofs ckphase.Sim ckphase.Clauses ckphase.Overlap.
+Module CK := HD.ckphase.Model.
+Module CKS := HD.ckphase.Spec.
+Module CKC := HD.ckphase.Clauses.
 
 Theorem c14_monitor : forall cfg ops, mon_C14 cfg ops (trace cfg ops) = true.
 Proof. exact mon_C14_holds. Qed.
@@ -71,3 +86,98 @@ Example c14_example :
   /\ existsb (fun e => match e with EHand 1 0 _ _ _ _ => true | _ => false end) (o_events (nth 10 (trace cfg ops) (mkObs [] [] []))) = true
   /\ map sn_idle (o_snap (last (trace cfg ops) (mkObs [] [] []))) = [[1]].
 Proof. vm_compute. auto. Qed.
+
+(* ================================================================ two-phase dial (coq/ckphase) *)
+Theorem c14_ckphase_monitor : forall cn ops, CKS.mon_ckphase cn ops (CK.trace cn ops) = true.
+Proof. exact HD.ckphase.Sim.mon_ckphase_holds. Qed.
+Print Assumptions c14_ckphase_monitor.
+
+(* (a) the connection of a finished request goes to the request that has waited longest; nothing is assumed
+   about that request's own dial: unpolled, transport pending, handshake pending, resolved but unseen *)
+Theorem c14_ckphase_release_offers : forall cn ops0 c r0 r, let s := CK.final cn ops0 in
+  CK.holder s c = Some r0 -> CKC.mst s r = Some (CK.RWait None) -> (forall r', r' < r -> CKC.mst s r' <> Some (CK.RWait None)) ->
+  CKC.mst (CK.step s (CK.Release c)) r = Some (CK.RWait (Some c)).
+Proof. exact CKC.c_release_offers. Qed.
+Print Assumptions c14_ckphase_release_offers.
+
+(* (a) whatever happens in between (its own transport connecting, its own handshake completing, other requests,
+   other releases), the request is served by the offered connection at its next poll *)
+Theorem c14_ckphase_offer_served_next_poll : forall cn ops0 ops r c, let s := CK.final cn ops0 in
+  CKC.mst s r = Some (CK.RWait (Some c)) -> (forall o, In o ops -> o <> CK.Poll r /\ o <> CK.Cancel r) ->
+  let s1 := snd (CK.run s ops) in
+  In (CK.EHand r c) (CK.evs (CK.step s1 (CK.Poll r))) /\ CKC.mst (CK.step s1 (CK.Poll r)) r = Some (CK.RServed c).
+Proof. exact CKC.c_offer_served_next_poll. Qed.
+Print Assumptions c14_ckphase_offer_served_next_poll.
+
+(* (b) continue_after_preemption: the pre-empted / cancelled attempt (connect already called) is not dropped *)
+Theorem c14_ckphase_dial_continues : forall cn ops0 r q got o, let s := CK.final cn ops0 in
+  CK.cont s = true -> nth_error (CK.reqs s) r = Some q -> CK.r_st q = CK.RWait got -> CK.started (CK.r_dial q) = true ->
+  (o = CK.Cancel r \/ (o = CK.Poll r /\ got <> None)) ->
+  ~ In (CK.EDrop r) (CK.evs (CK.step s o)) /\
+  match CK.d_t (CK.r_dial q), CK.d_h (CK.r_dial q) with
+  | Some true, Some true => In (CK.ENew (CK.nconn s) r) (CK.evs (CK.step s o))
+  | Some false, _ | Some true, Some false => True
+  | _, _ => exists q', nth_error (CK.reqs (CK.step s o)) r = Some q' /\ CK.d_bg (CK.r_dial q') = true /\ CK.d_ph (CK.r_dial q') <> CK.DGone
+  end.
+Proof. exact CKC.c_dial_continues. Qed.
+Print Assumptions c14_ckphase_dial_continues.
+
+Theorem c14_ckphase_dial_survives_transport : forall cn ops0 r q, let s := CK.final cn ops0 in
+  nth_error (CK.reqs s) r = Some q -> CK.d_bg (CK.r_dial q) = true -> CK.d_ph (CK.r_dial q) <> CK.DGone -> CK.d_t (CK.r_dial q) = None ->
+  exists q', nth_error (CK.reqs (CK.step s (CK.TDone r true))) r = Some q' /\
+             CK.d_bg (CK.r_dial q') = true /\ CK.d_ph (CK.r_dial q') <> CK.DGone /\ CK.d_t (CK.r_dial q') = Some true.
+Proof. exact CKC.c_dial_survives_transport. Qed.
+Print Assumptions c14_ckphase_dial_survives_transport.
+
+(* (b) ... and when its handshake completes the connection exists and is available: offered to the
+   longest-waiting request or idle *)
+Theorem c14_ckphase_dial_completes_into_pool : forall cn ops0 r q, let s := CK.final cn ops0 in
+  nth_error (CK.reqs s) r = Some q -> CK.d_bg (CK.r_dial q) = true -> CK.d_ph (CK.r_dial q) <> CK.DGone -> CK.d_t (CK.r_dial q) = Some true ->
+  let s' := CK.step s (CK.HDone r true) in
+  CK.evs s' = [CK.ENew (CK.nconn s) r] /\ CK.nconn s' = S (CK.nconn s) /\
+  (In (CK.nconn s) (CK.idle s') \/ exists r', CKC.mst s' r' = Some (CK.RWait (Some (CK.nconn s)))).
+Proof. exact CKC.c_dial_completes_into_pool. Qed.
+Print Assumptions c14_ckphase_dial_completes_into_pool.
+
+(* (b) without continue_after_preemption: dropped at once, makes no connection, and is gone *)
+Theorem c14_ckphase_dial_dropped : forall cn ops0 r q got o, let s := CK.final cn ops0 in
+  CK.cont s = false -> nth_error (CK.reqs s) r = Some q -> CK.r_st q = CK.RWait got ->
+  (o = CK.Cancel r \/ (o = CK.Poll r /\ got <> None)) ->
+  (CK.started (CK.r_dial q) = true -> In (CK.EDrop r) (CK.evs (CK.step s o))) /\
+  (forall c, ~ In (CK.ENew c r) (CK.evs (CK.step s o))) /\
+  CK.d_ph (CK.get_dial (CK.step s o) r) = CK.DGone.
+Proof. exact CKC.c_dial_dropped. Qed.
+Print Assumptions c14_ckphase_dial_dropped.
+
+Theorem c14_ckphase_gone_dial_unreachable : forall cn ops0 r ok, let s := CK.final cn ops0 in
+  CK.d_ph (CK.get_dial s r) = CK.DGone ->
+  CK.step s (CK.TDone r ok) = CK.set_evs [] s /\ CK.step s (CK.HDone r ok) = CK.set_evs [] s.
+Proof. exact CKC.c_gone_dial_ignores_environment. Qed.
+Print Assumptions c14_ckphase_gone_dial_unreachable.
+
+(* (c) every connection ever made is in exactly one place (checkout / one waiter's channel / one request's hands /
+   idle list): nothing lost, nothing duplicated *)
+Theorem c14_ckphase_connections_conserved : forall cn ops, let s := CK.final cn ops in
+  Permutation.Permutation (flat_map HD.ckphase.Proofs.rloc (CK.reqs s) ++ CK.idle s) (seq 0 (CK.nconn s)).
+Proof. exact CKC.connections_conserved. Qed.
+Print Assumptions c14_ckphase_connections_conserved.
+
+Theorem c14_ckphase_no_connection_serves_two : forall cn ops0 r1 r2 c, let s := CK.final cn ops0 in
+  CKC.mst s r1 = Some (CK.RServed c) -> CKC.mst s r2 = Some (CK.RServed c) -> r1 = r2.
+Proof. exact CKC.c_no_connection_serves_two. Qed.
+Print Assumptions c14_ckphase_no_connection_serves_two.
+
+(* (c) on every trace the monitor accepts (the implementation's included) no request is handed a connection twice *)
+Theorem c14_ckphase_served_once : forall cn ops obs r,
+  CKS.mon_ckphase cn ops obs = true -> CKC.hands r (flat_map CK.o_evs obs) <= 1.
+Proof. exact CKC.accepted_trace_serves_once. Qed.
+Print Assumptions c14_ckphase_served_once.
+
+(* non-vacuity: the scenario of the seeded regression "waiter closed once own transport connected" *)
+Example c14_ckphase_example :
+  let ops := [CK.Issue; CK.Poll 0; CK.TDone 0 true; CK.HDone 0 true; CK.Poll 0; CK.Issue; CK.Poll 1; CK.TDone 1 true; CK.Poll 1;
+              CK.Release 0; CK.Poll 1] in
+  CKS.mon_ckphase false ops (CK.trace false ops) = true /\
+  map CK.o_evs (skipn 8 (CK.trace false ops)) = [[CK.EPend 1]; []; [CK.EHand 1 0; CK.EDrop 1]] /\
+  map CK.o_evs (skipn 8 (CK.trace true (ops ++ [CK.HDone 1 true]))) = [[CK.EPend 1]; []; [CK.EHand 1 0]; [CK.ENew 1 1]].
+Proof. vm_compute. repeat split. Qed.
